@@ -71,7 +71,10 @@ func (w *writer) NeedsRollover(rollover int64) bool {
 	// Rollover is intentionally based on data-file size only, not including the
 	// index. The index grows proportionally; callers set the threshold based on
 	// message-data volume, not total on-disk cost.
-	return w.messages.Size() > rollover
+	//
+	// An empty segment never rolls over: with a threshold below the file header size
+	// it would otherwise be replaced by a second segment with the same starting offset.
+	return w.index.Len() > 0 && w.messages.Size() > rollover
 }
 
 func (w *writer) Publish(msgs []message.Message) (int64, error) {
